@@ -186,6 +186,7 @@ PROPS = {
                               'C03_insertion_after_in_place_quantization_is_read_by_exactly_the_listed_operators',
                               'C03_insertion_that_is_not_retargeted_is_read_by_exactly_the_listed_operators',
                               'C03_last_instruction_of_a_nested_list_is_read_by_exactly_the_listed_operators',
+                              'C03_horizontal_grouping_produces_nests',
                               'C03_generator_invents_no_instruction', 'C03_mode_table', 'C03_policy_configs_have_a_mode',
                               'C03_unselected_op_untouched', 'C03_nonfloat_operand_never_quantized',
                               'C03_quantize_tensor_effect',
@@ -194,7 +195,7 @@ PROPS = {
         'rule': GRAPH_RULE + STATIC_RULE,
         'trusted_base': COMMON_TB + GRAPH_TB,
         'assumptions': GRAPH_ASSUME + [
-            'theorems per layer (decision function, plan of unselected ops / ignored operands, one performer step) PLUS two whole-run theorems of the performer (a tensor no instruction names is returned unchanged; a tensor whose list starts with QUANTIZE_TENSOR/ADD_DEQUANTIZE(p) is returned with p\'s dtype and annotation); PLUS two theorems over all plan entries of the instruction generator (every consumer position is carried by an emitted instruction that lists the consumer, unchanged or — position 0 against an ADD_DEQUANTIZE producer — as its documented vertical rewrite; every emitted instruction is the producer\'s or lists only consumers that planned it); PLUS two operand-level whole-run theorems of the performer (readers of an un-named tensor are unchanged; the listed consumers of an inserted QUANTIZE/DEQUANTIZE read the new tensor at their old slots until the end of the run when nothing later names it); the single-insertion case is stated and proved in terms of the ORIGINAL graph (C03_single_insertion_is_read_by_exactly_the_listed_operators); what remains validated only (correspondences P, I, T/E and the per-operand dtype oracle on every returned model) is (a) lists whose consumer lists overlap only PARTIALLY (the generator cannot emit them: correspondence T), (b) the readers of an insertion that is not the last of its list, and (c) that the generator\'s lists are nested (groups at depth d+1 inside groups at depth d) — in-place quantizations, disjoint insertions and insertions re-targeted onto an enclosing earlier one ARE proved for the last instruction of a list',
+            'theorems per layer (decision function, plan of unselected ops / ignored operands, one performer step) PLUS two whole-run theorems of the performer (a tensor no instruction names is returned unchanged; a tensor whose list starts with QUANTIZE_TENSOR/ADD_DEQUANTIZE(p) is returned with p\'s dtype and annotation); PLUS two theorems over all plan entries of the instruction generator (every consumer position is carried by an emitted instruction that lists the consumer, unchanged or — position 0 against an ADD_DEQUANTIZE producer — as its documented vertical rewrite; every emitted instruction is the producer\'s or lists only consumers that planned it); PLUS two operand-level whole-run theorems of the performer (readers of an un-named tensor are unchanged; the listed consumers of an inserted QUANTIZE/DEQUANTIZE read the new tensor at their old slots until the end of the run when nothing later names it); the single-insertion case is stated and proved in terms of the ORIGINAL graph (C03_single_insertion_is_read_by_exactly_the_listed_operators); what remains validated only (correspondences P, I, T/E and the per-operand dtype oracle on every returned model) is (a) lists whose consumer lists overlap only PARTIALLY (the generator cannot emit them: correspondence T), (b) the readers of an insertion that is not the last of its list, and (c) the passage from nested GROUPS of consumer indices (proved: C03_horizontal_grouping_produces_nests) to nested consumer lists of the emitted instructions — in-place quantizations, disjoint insertions and insertions re-targeted onto an enclosing earlier one ARE proved for the last instruction of a list',
             'the dtype oracle derives the expected dtype of every operand from the recipe resolution (RecipeManager + quantization-side scope) only'],
     },
     'C04': {
